@@ -34,8 +34,8 @@ RULE = (
     "tables, all parameters, to the oracle's order; reverse rules: the original rule; paths: the composed dictionary) and "
     "records child parameters nobody is mapped to as 'zero' (0 on every object) or 'genuine'. get_genf (>= 150 returned "
     "closed forms per quick run: every tree specification of degree <= 2, 18% of the univariate word specifications; "
-    "check = 6, sometimes 3 or 9; planted j up to check (boundary) and, while the solver-order finding is open, check+1, "
-    "check+2) is run as is and, when the solver listed >= 2 solutions, once more with that list reversed; then: (a) "
+    "check = 6, sometimes 3 or 9; planted j up to check (boundary) and check+1, check+2: the branch is then decided by a "
+    "NON-root class only) is run as is and, when the solver listed >= 2 solutions, once more with that list reversed; then: (a) "
     "sympy.solve is re-run on the emitted system exactly as get_genf calls it (cached by the system) and the solutions "
     "whose root function is the returned one are taken; (b) on such a solution every class has a solved function and "
     "every emitted equation holds as an IDENTITY (sympy.simplify(lhs - rhs) == 0; if simplify cannot decide, exact "
@@ -46,7 +46,10 @@ RULE = (
     "the harness (transfer recurrence for words, convolution recurrence for trees; no objects, no library) up to x^40; "
     "the library's own counts are only recorded; (d) whether C20_closed_form_criterion speaks about the specification "
     "(rule forms, the rules' shifts() = the declared shifts, minimum sizes, the root pumps) is recorded: applies / "
-    "outside:quotient / outside:verified. With statistics get_genf must refuse (NotImplementedError). (rule, 55%) single "
+    "outside:quotient / outside:verified; (e) the SELECTION step is compared with the model: the solver's lists as handed "
+    "to get_genf (Taylor coefficients 0..check+6 of every class's function in every solution) and the specification's "
+    "counts go into genf_select (Count/GenfSelect.v), whose choice must be the returned function (coefficients "
+    "0..check+6) or IncorrectGeneratingFunctionError. With statistics get_genf must refuse (NotImplementedError). (rule, 55%) single "
     "rules built directly: union / product (2 factors, and >= 3 factors with the non-atom first, last, in the middle) / "
     "relabelling strategies with statistics in the modes keep, merge (several parent parameters -> one child parameter), "
     "rename to new names, NAME-PERMUTING modes in which a child parameter carries the name of a DIFFERENT parent "
@@ -61,8 +64,14 @@ RULE = (
     "bare (as a specification holds one-child rules); products with a SINGLE factor (fix 25e10f1) in every form: "
     "forward, reverse, EquivalenceRule (a one-child union equation), its reverse (no constructor: placeholder), as path "
     "steps (composed like union / Complement steps; wrapped and reversed: the path has no constructor). The run fails "
-    "unless all of these were reached. Shapes of the three known findings are generated only while they are listed as open in known_findings.json "
-    "and are matched by mechanism (see finding_match). Non-trivial: spec case with >= 3 equations incl. a product, reverse "
+    "unless all of these were reached -- including the shapes the fixes f1b2e4b / 7be1dfb repair: a child (of a "
+    "union, a product, an equivalence, a path) that tracks one more GENUINE statistic nobody is mapped to, two and three "
+    "parent parameters mapped to one child parameter of a product, roots planted beyond the compared terms. THE CODE "
+    "STATE IS READ FROM THE SOURCE (code_state): on a tree with the fixes the model runs rule_equation / genf_select and "
+    "nothing is tolerated; on a tree before a fix the model runs rule_equation_old / genf_select_old and exactly the "
+    "repaired defect is tolerated, by mechanism (the rule is genuine and the equation written as the repaired method "
+    "writes it is satisfied; the wrong-branch symptom) -- unless known_findings.json records the fix as a commit of "
+    "/repo, in which case a tree without it fails the run. Non-trivial: spec case with >= 3 equations incl. a product, reverse "
     "or path equation, all evaluated; rule case whose equation is emitted and has >= 3 non-zero coefficients up to the "
     "model's order; distinct = distinct case descriptors."
 )
@@ -73,25 +82,23 @@ TECHNIQUE = (
     "series arithmetic, brute force, an independent counting recurrence)"
 )
 LEVEL_TEXT = (
-    "Theorems C20_* (coq/theories/Props/C20.v). GROUP 1, for every truncation order N and every comparison variable set: "
-    "the equation emitted for a union rule (substitution child variable := product of the parent variables mapped to "
-    "it), for a product rule with injective parameter dictionaries, for their reverses in the form the code emits (Sub "
+    "Theorems C20_* (coq/theories/Props/C20.v), about the code WITH the fixes f1b2e4b / 7be1dfb. GROUP 1, for every "
+    "truncation order N and every comparison variable set: the equation emitted for a union rule and for a product rule "
+    "(substitution child variable := product of ALL parent variables mapped to it, := 1 when there is none: the "
+    "statistic is summed out), for their reverses in the form the code emits (Sub "
     "directly; Div read as the cross-multiplied identity; with parameters: the fallback to the original rule's "
     "equation), for EquivalenceRule of a union rule or of a product rule with a single factor, for "
     "EquivalencePathRule (a one-child union with the composed dictionary), for atoms and empty classes, holds coefficient-wise up to order N when every F_label is read as the "
     "class's true series, PROVIDED (i) the rule is genuine -- a hypothesis: union_genuine on term tables (positional "
-    "re-keying, as get_terms re-keys), product_genuine on series coefficients at the same N -- and (ii) every parameter "
-    "of a child is the image of a parent parameter (kid_wf) or, in the *_zero_statistic / *_fixed_values versions, is 0 "
-    "on every object of the child (kid_wf0; the case in which EquivalencePathRule.constructor passes fixed_values = "
-    "{k: 0}: the child's own variable stays in the equation, harmlessly). C20_equivalence_reverse_equation_satisfied: "
+    "re-keying, as get_terms re-keys), product_genuine on series coefficients at the same N -- and (ii) the dictionaries "
+    "are well formed (kid_wfd: distinct keys, from parameters of the parent to parameters of the child, distinct names "
+    "none of which is x). NO cover and NO injectivity condition is left: this is the full first clause (an "
+    "EquivalencePathRule with fixed_values = {k: 0} included). C20_equivalence_reverse_equation_satisfied: "
     "EquivalenceRule of a REVERSED union rule emits F_c = F_p only with the empty dictionary and that equation holds "
     "(both classes' parameters are then 0 on every object); C20_equivalence_reverse_with_parameters_has_no_equation: "
     "otherwise Complement.get_equation raises and, unlike ReverseRule, nothing falls back -- get_equations emits the "
     "placeholder F = NOTIMPLEMENTED(x), about which nothing is claimed. C20_without_parameters_every_rule_has_equation: "
-    "a specification without parameters never gets a placeholder. C20_union_unmapped_refuted / "
-    "C20_product_collision_refuted: a genuine union rule (and the equivalence path over it) with a child parameter "
-    "nobody is mapped to that is NOT identically 0, and a genuine product rule with two parent parameters mapped to one "
-    "child parameter, emit equations that are not satisfied (open findings). Variables of the model are NAMES (sympy "
+    "a specification without parameters never gets a placeholder. Variables of the model are NAMES (sympy "
     "symbols are global by name) and the model's subs is the simultaneous substitution of subs(..., simultaneous=True). "
     "GROUP 2, univariate: C20_unique_series (two families that satisfy every emitted equation of a union / product / "
     "complement / atom / empty specification at every order and vanish below the declared minimum sizes coincide on "
@@ -100,12 +107,24 @@ LEVEL_TEXT = (
     "product = full Cauchy product -- the true counts are such a family), and C20_closed_form_criterion: if "
     "additionally a family G of coefficient sequences, one per class, satisfies every emitted equation at every order "
     "(i.e. identically as formal power series) and vanishes below the minimum sizes, then G's coefficients are the "
-    "true counts at EVERY order."
+    "true counts at EVERY order. GROUP 3, the selection of get_genf (Count/GenfSelect.v; what sympy.solve returned is an "
+    "input): C20_genf_selection -- the returned branch is the first of the solver's on which EVERY class's series (not "
+    "only the root's) agrees with the specification's counts on the check+1 compared terms; "
+    "C20_genf_selection_beyond_compared_terms_refuted -- that does not imply agreement at x^(check+1); "
+    "C20_genf_selected_closed_form -- selection + identity check (per instance) = every order, the selection itself "
+    "discharging the criterion's minimum-size premise. HISTORY (the code before the fixes, rule_equation_old / "
+    "genf_select_old): C20_union_unmapped_refuted, C20_product_collision_refuted, "
+    "C20_genf_selection_before_fix_refuted (genuine rules whose old equation is not satisfied and whose repaired one "
+    "is; the old selection returning a wrong branch); C20_{union,product,path}_equation_before_fix_satisfied (where the "
+    "old methods were right: unmapped child parameters 0 on every object, injective product dictionaries); "
+    "C20_before_fix_same_equations (where both emit the same equation)."
 )
 LEVEL_NOTE = (
-    "Nothing is proved about get_genf, get_initial_conditions or taylor_expand themselves (they are in no model): "
-    "get_genf obtains closed forms from sympy.solve and selects one by check+1 initial terms of the ROOT only. What is "
-    "proved is the reduction C20_closed_form_criterion; its premise is checked PER INSTANCE, as far as sympy allows: "
+    "get_initial_conditions, taylor_expand and sympy.solve are in no model; of get_genf the SELECTION step is modelled "
+    "(genf_select, with _all_classes_agree: every class's solved function must expand to that class's counts on "
+    "check+1 terms) and tied by correspondence. The selection guarantees agreement on the compared terms only "
+    "(C20_genf_selection); every order is the reduction C20_closed_form_criterion / C20_genf_selected_closed_form, "
+    "whose remaining premise is checked PER INSTANCE, as far as sympy allows: "
     "the returned function is the root's function in a solution of sympy.solve's that has a function for every "
     "class, satisfies every emitted equation identically (simplify; exact series to x^40 when simplify cannot decide) "
     "and consists of integer power series vanishing below the minimum sizes. The criterion's other hypotheses are "
@@ -125,8 +144,12 @@ TRUSTED = [
     "inside the emitted equations); sympy.series only for expressions outside rational functions and square roots",
     "modelled, not verified: get_equation of DisjointUnion, Complement, CartesianProduct, Quotient, Rule, ReverseRule, "
     "EquivalenceRule, EquivalencePathRule, VerificationRule, AtomStrategy/EmptyStrategy.get_genf, "
-    "CombinatorialSpecification.get_equations (Count/Equations.v), tied by this correspondence; "
-    "CombinatorialSpecification.get_genf / get_initial_conditions / taylor_expand are in NO model",
+    "CombinatorialSpecification.get_equations (Count/Equations.v), the selection loop of "
+    "CombinatorialSpecification.get_genf with _all_classes_agree (Count/GenfSelect.v), tied by this correspondence; "
+    "sympy.solve inside get_genf, get_initial_conditions and taylor_expand are in NO model (the solver's output and "
+    "the Taylor coefficients are inputs of the selection model, computed by the harness's own series arithmetic)",
+    "harness/props/c20.py code_state: which model (with / before the fixes) is run is decided by reading the source of "
+    "the three methods",
     "translator harness/translate.py for Gen/ProductShifts.v (shifts used by C20_unique_series)",
     "harness/universes/words_stats_c20.py (classes with statistics, trees): brute-force truth through the classes' own "
     "objects_of_size / get_parameters; independent counting recurrences word_counts / tree_counts",
@@ -135,19 +158,22 @@ ASSUMPTIONS = [
     "rules are genuine: the parent's true term table is the positionally re-keyed sum / Cauchy product of the "
     "children's true term tables (strategy contract, a hypothesis of the theorems; evaluated by brute force for every "
     "rule of every generated case up to the oracle's order 7-10 -- a rule that is genuine up to that size only would pass)",
-    "extra_parameters dictionaries map parent parameters to parameters of the child; every child parameter is the image "
-    "of some parent parameter or is 0 on every object of the child (otherwise the emitted equation keeps the child's own "
-    "variable free although get_terms sums it out: known finding); DisjointUnion.fixed_values is read by neither "
-    "get_equation nor the model: an equivalence path with fixed_values = {k: 0} is covered exactly when k is 0 on "
-    "every object of the end class; parameter names of one class are distinct and differ from x (never checked; a "
-    "statistic called x is not generated); NO assumption relates the names of the child to the names of the parent",
-    "product rules: no two parent parameters are mapped to the same child parameter (otherwise known finding)",
+    "extra_parameters dictionaries map parent parameters to parameters of the child (checked per rule); "
+    "DisjointUnion.fixed_values is read by neither get_equation nor the model; parameter names of one class are "
+    "distinct and differ from x (checked per case; a statistic called x is not generated); NO assumption relates the "
+    "names of the child to the names of the parent, child parameters may be unmapped, parent parameters may share a "
+    "child parameter",
+    "on a tree BEFORE fix f1b2e4b (old model): every child parameter is the image of some parent parameter or is 0 on "
+    "every object of the child, and no two parent parameters of a product share a child parameter -- otherwise the "
+    "old equation is wrong (C20_union_unmapped_refuted, C20_product_collision_refuted), which is tolerated there",
     "a placeholder equation F = NOTIMPLEMENTED(x) (EquivalenceRule of a reversed rule with a non-empty dictionary, "
     "equivalence path through a reversed merging rule, AtomStrategy with parameters) is a refusal: no claim; it never "
     "occurs without parameters (theorem), and a specification handed back by the searcher never contains a bare "
     "EquivalenceRule (checked per case)",
     "C20_closed_form_criterion: univariate, union/product/complement/atom/empty rules only (no Quotient, no user "
     "verification strategy), integer Taylor coefficients, solutions vanish below the classes' minimum sizes",
+    "C20_genf_selection speaks about the specification's OWN counts (rule.count_objects_of_size); that they are the true "
+    "counts is C01's conclusion (the oracle compares with brute force and an independent recurrence instead)",
 ]
 
 KINDS = {0: "union", 1: "product", 2: "rev_union", 3: "rev_product", 4: "equiv", 5: "equiv_rev", 6: "path",
@@ -169,6 +195,55 @@ def _S():
 
 _CACHE = {}
 _TRUTH = {}
+_STATE = {}
+
+
+def code_state():
+    """Which of the two C20 fixes does the tree under test have?  Read from the SOURCE of the methods:
+    eq   -- DisjointUnion.get_equation and CartesianProduct.get_equation set the variable of a child parameter
+            nobody is mapped to to 1 and multiply the parents of one child parameter (fix f1b2e4b);
+            True / False, or "mixed" when only one of the two methods has it;
+    genf -- CombinatorialSpecification.get_genf asks _all_classes_agree (fix 7be1dfb).
+    The model side runs rule_equation / genf_select for a repaired tree and rule_equation_old /
+    genf_select_old otherwise."""
+    if _STATE:
+        return _STATE
+    import inspect
+    from comb_spec_searcher.specification import CombinatorialSpecification
+    from comb_spec_searcher.strategies.constructor import CartesianProduct, DisjointUnion
+
+    def has(fn, *marks):
+        try:
+            src = inspect.getsource(fn)
+        except (OSError, TypeError):
+            return False
+        return all(m in src for m in marks)
+
+    u = has(DisjointUnion.get_equation, "rhs_func.args")
+    p = has(CartesianProduct.get_equation, "rhs_func.args") and not has(CartesianProduct.get_equation, "{child: parent for parent, child")
+    _STATE["eq"] = True if (u and p) else False if not (u or p) else "mixed"
+    _STATE["genf"] = hasattr(CombinatorialSpecification, "_all_classes_agree") and has(
+        CombinatorialSpecification.get_genf, "_all_classes_agree")
+    # the PROPOSED guard of the reverse constructors (findings/c20_reverse_equation_unmapped_child_parameter.diff)
+    from comb_spec_searcher.strategies.constructor import Complement, Quotient
+
+    gc, gq = has(Complement.get_equation, "func.args"), has(Quotient.get_equation, "func.args")
+    _STATE["guard"] = bool(gc and gq)
+    if gc != gq or (_STATE["guard"] and _STATE["eq"] is not True):
+        _STATE["eq"] = "mixed"
+    return _STATE
+
+
+def fix_landed(which):
+    """is the fix recorded in known_findings.json as a commit of /repo (kind fixed, a real hash)?  While the
+    hash is still the placeholder FIXHASH_* a tree without the fix is simply the tree before the commit."""
+    ids = {"eq": ("product-equation-parameter-collision", "union-equation-unmapped-child-parameter"),
+           "genf": ("genf-selection-depends-on-solver-order",)}[which]
+    for k in core.load_known():
+        if k.get("property") == ID and k.get("match") in ids and k.get("kind") == "fixed" \
+                and not str(k.get("commit", "FIXHASH")).startswith("FIXHASH"):
+            return k.get("commit")
+    return None
 
 
 def truth(cls, n):
@@ -466,7 +541,7 @@ def _table(cls, N):
 def encode(case):
     b = bundle(case)
     if not b.rules:
-        return [0, [0], [], [], []]
+        return [0, [0], [], [], [], [0, 0, 0], []]
     N = order_of(case, b)
     V = sorted(b.vid.values())
     classes, opaque, rules = [], [], []
@@ -486,7 +561,8 @@ def encode(case):
                     e[p] += key[1 + j]
                 ent.append([e, cnt])
             opaque.append([b.label(c), ent])
-    return [N, V, classes, opaque, rules]
+    st = code_state()
+    return [N, V, classes, opaque, rules, [int(st["eq"] is True), int(bool(st["genf"])), int(bool(st["guard"]))], []]
 
 
 def encode_with(case, res):
@@ -495,11 +571,11 @@ def encode_with(case, res):
     if isinstance(res, dict) and "enc" in res:
         return res["enc"]
     if isinstance(res, dict) and "exception" in res:
-        return [0, [0], [], [], []]       # the implementation raised: reported by the oracle, nothing to model
+        return [0, [0], [], [], [], [0, 0, 0], []]       # the implementation raised: reported by the oracle, nothing to model
     try:
         return encode(case)
     except Exception:  # pylint: disable=broad-except
-        return [0, [0], [], [], []]
+        return [0, [0], [], [], [], [0, 0, 0], []]
 
 
 # ----------------------------------------------------------------------------- canonical form of sympy trees
@@ -720,8 +796,75 @@ def impl(case):
     # process: see encode_with
     res["enc"] = encode(case)
     if case.get("genf"):
-        res["genf"] = _run_genf(b, case.get("check", 6))
+        check = case.get("check", 6)
+        res["genf"], runs = _run_genf(b, check)
+        sel = _selection_input(b, check, res["genf"], runs)
+        if sel is not None:
+            res["enc"][6], extra = sel
+            res["out"] = res["out"] + extra
+        else:
+            res["genf_model"] = "skipped"
     return res
+
+
+GENF_K = 6      # root coefficients compared between model and implementation: 0 .. check + GENF_K
+
+
+def _selection_input(b, check, infos, runs):
+    """The selection step of get_genf as an input/output pair for the model (Count/GenfSelect.v):
+    input  [check, root, number of classes, the specification's counts per class, the solver's lists handed to
+            get_genf (one per run; a solution = per class the Taylor coefficients 0..K of its function, [] when
+            it has none), K];
+    output per run [5, 1, Taylor coefficients 0..K of the function get_genf returned] or [5, 0, []]
+           (IncorrectGeneratingFunctionError).
+    None when the comparison is not possible (get_genf refused before solving; a non-integer coefficient)."""
+    import sympy
+    from comb_spec_searcher.utils import RecursionLimit
+
+    spec = b.spec
+    if not runs or len(runs) != len(infos) or any(r is None for r in runs):
+        return None
+    K = check + GENF_K
+    classes = [r.comb_class for r in b.rules]
+    if spec.root not in classes:
+        return None
+    funcs = [spec.get_function(c) for c in classes]
+    counts = []
+    with RecursionLimit((K + 2) * max(spec.number_of_rules(), 1) + 100):
+        for c in classes:
+            counts.append([int(spec.rules_dict[c].count_objects_of_size(n)) for n in range(check + 1)])
+    enc_runs, out = [], []
+    memo = {}
+    for info, sols in zip(infos, runs):
+        er = []
+        for sol in sols:
+            eb = []
+            for f in funcs:
+                if f not in sol:
+                    eb.append([])
+                    continue
+                key = sympy.srepr(sol[f])
+                if key not in memo:
+                    memo[key] = _taylor(sol[f], K, integer=False)
+                t = memo[key]
+                if t is None:
+                    eb.append([])
+                elif any(not isinstance(x, int) for x in t):
+                    return None
+                else:
+                    eb.append([1] + t)
+            er.append(eb)
+        enc_runs.append(er)
+        if "genf" in info:
+            t = _taylor(sympy.sympify(info["genf"]), K, integer=False)
+            if t is None or any(not isinstance(x, int) for x in t):
+                return None
+            out.append([5, 1, t])
+        elif info.get("exception") == "IncorrectGeneratingFunctionError":
+            out.append([5, 0, []])
+        else:
+            return None
+    return [check, classes.index(spec.root), len(classes), counts, enc_runs, K], out
 
 
 # ----------------------------------------------------------------------------- genuineness of the rules
@@ -849,6 +992,10 @@ def _genuine(b, M, facts):
                 return "hypothesis violated: dictionary %r of the %s rule for %r does not map parameters of the parent to parameters of %r" % (ep, kind, parent, c)
             for nm, how in _unmapped(c, ep, M).items():
                 facts.append("unmapped-child-parameter:" + how)
+            if len(set(ep.values())) < len(ep):
+                facts.append("merged-parent-parameters:" + kind)
+                if max(list(ep.values()).count(v) for v in ep.values()) >= 3:
+                    facts.append("merged-parent-parameters:3+")
         bad = (_union_genuine if kind == "union" else _product_genuine)(parent, kids, M)
         if bad:
             return ("hypothesis violated: the %s rule for %r%s is not genuine: at size %d the children's re-keyed terms "
@@ -926,17 +1073,19 @@ def _run_genf(b, check=6):
     import sympy
     from comb_spec_searcher import specification as specmod
 
-    out = []
+    out, runs = [], []
     orig = specmod.solve
-    seen = {"n": None}
+    seen = {"n": None, "sols": None}
     for rev in (False, True):
         if rev and (seen["n"] is None or seen["n"] < 2):
             break
+        seen["sols"] = None
 
         def solve(*a, _rev=rev, **k):
             sols = orig(*a, **k)
             seen["n"] = len(sols)
-            return list(reversed(sols)) if _rev else sols
+            seen["sols"] = list(reversed(sols)) if _rev else list(sols)
+            return list(seen["sols"])
 
         specmod.solve = solve
         try:
@@ -946,7 +1095,8 @@ def _run_genf(b, check=6):
             out.append({"exception": type(ex).__name__, "text": str(ex)[:200], "branches": seen["n"]})
         finally:
             specmod.solve = orig
-    return out
+        runs.append(seen["sols"])
+    return out, runs
 
 
 class _PS:
@@ -1291,7 +1441,7 @@ def _check_genf(case, b, info, check, facts):
     def analytic(sol):
         """every solved function is a power series with integer coefficients that vanishes below the class's
         minimum size and agrees with brute force on EVERY class up to the oracle's order"""
-        Mall = min(_oracle_order(b), 8)
+        Mall = max(min(_oracle_order(b), 8), min(check, 10))   # at least the check + 1 terms _all_classes_agree compares
         for c in spec.rules_dict:
             f = spec.get_function(c)
             mn = 0 if c.is_empty() else c.minimum_size_of_object()
@@ -1367,6 +1517,11 @@ def oracle(case, res):
         return None
     facts = res.setdefault("facts", [])
     del facts[:]
+    state = code_state()
+    facts.append("state:eq=%s,genf=%s" % (state["eq"], state["genf"]))
+    if state["eq"] == "mixed":
+        return ("the tree is half repaired: only one of DisjointUnion.get_equation / CartesianProduct.get_equation "
+                "sets unmapped child parameters to 1 and multiplies the parents of one child parameter")
     M = _oracle_order(b)
     why = _genuine(b, M, facts)
     if why:
@@ -1396,24 +1551,66 @@ def oracle(case, res):
             msg = "equation %s of the %s rule for %r is not satisfied by the true series: coefficient of %s is %d on the left, %d on the right" % (
                 eq, KINDS[res["kinds"][i]], r.comb_class,
                 "*".join("%s^%d" % (nm, e) for nm, e in zip(names, bad)), dl.get(bad, 0), dr.get(bad, 0))
-            fid = _explain(b, r, eq, M)
-            if fid:
-                msg += " [the rule is genuine; the equation repaired as the open finding says is satisfied: %s]" % fid
+            if res["kinds"][i] in (2, 3, 5) and not state["guard"]:
+                # OPEN finding reverse-equation-unmapped-child-parameter: the literal Complement / Quotient
+                # equation (all dictionaries empty) of a rule whose children carry a genuine statistic nobody
+                # is mapped to.  By mechanism only: the equation is the literal one (no dictionary), the
+                # original rule is genuine, and with those variables := 1 it is satisfied
+                src = _rule_source(r)
+                if src is not None and not any(ep for _, ep in src[2]) \
+                        and _explain(b, r, eq, M) == "union-equation-unmapped-child-parameter":
+                    return msg + " [the original rule is genuine; every dictionary is empty; with the unmapped child " \
+                        "parameters set to 1 the equation is satisfied: reverse-equation-unmapped-child-parameter]"
+            if state["eq"] is False:
+                # the tree does not have fix f1b2e4b: the two defects it repairs are what the code before the
+                # fix does (C20_union_unmapped_refuted / C20_product_collision_refuted); tolerated -- by mechanism
+                # only: the rule is genuine and the equation written as the repaired method writes it IS
+                # satisfied -- as long as the fix is not recorded as a commit of /repo
+                fid = _explain(b, r, eq, M)
+                if fid:
+                    landed = fix_landed("eq")
+                    if not landed:
+                        facts.append("before-fix:" + fid)
+                        continue
+                    msg += " [the defect repaired by fix %s: the tree is in the state before that commit]" % landed
+                    msg += " [the rule is genuine; the equation repaired as the open finding says is satisfied: %s]" % fid
             return msg
     if case.get("genf") and "genf" in res:
         check = case.get("check", 6)
         for which, info in zip(("", " (solver's solutions listed in reverse order)"), res["genf"]):
             why = _check_genf(case, b, info, check, facts)
+            if why and not state["genf"] and _wrong_branch_shape(case, why):
+                # the tree does not have fix 7be1dfb: the wrong-branch symptom (and only it) is what the
+                # selection before the fix does (C20_genf_selection_before_fix_refuted)
+                landed = fix_landed("genf")
+                if not landed:
+                    facts.append("before-fix:genf-selection-depends-on-solver-order")
+                    continue
+                why += " [the defect repaired by fix %s: the tree is in the state before that commit]" % landed
             if why:
                 return why + which
     return None
 
 
-_WRONG_BRANCH = None
+def _wrong_branch_shape(case, why):
+    """the symptom of the selection before fix 7be1dfb, and nothing else: the returned function is a branch
+    of the solved system that satisfies every equation identically, passes get_genf's own comparison of the
+    first check+1 coefficients of the root, and first differs from the counts at x^planted with planted > check"""
+    import re
+
+    m = re.search(r"\[wrong-branch n=(\d+) check=(\d+)\]", why or "")
+    if not m or case["kind"] != "spec" or case["cfg"].get("universe") != "trees":
+        return False
+    n0, check = int(m.group(1)), int(m.group(2))
+    return check < n0 <= case["cfg"].get("planted", 0) and check == case.get("check", 6)
+
 
 
 def finding_match(case, why):
-    """narrow, by MECHANISM:
+    """All three findings are FIXED (f1b2e4b, 7be1dfb): with their entries of kind `fixed` nothing is masked
+    any more (core only consults open entries) -- on a repaired tree any such failure is a violation, on a tree
+    before the fix the oracle itself tolerates exactly the repaired defect (see oracle).  Kept for a
+    known_findings.json that still lists an entry as open.  Narrow, by MECHANISM:
     * the two equation findings: only when the oracle has shown that the rule is genuine and that the
       equation repaired exactly as the finding proposes is satisfied (any other defect on the same input
       leaves the repaired equation unsatisfied and is reported);
@@ -1428,9 +1625,11 @@ def finding_match(case, why):
     m = re.search(r"\[wrong-branch n=(\d+) check=(\d+)\]", why)
     if m and case["kind"] == "spec" and case["cfg"].get("universe") == "trees":
         n0, check = int(m.group(1)), int(m.group(2))
-        if case["cfg"].get("planted", 0) == n0 and n0 > check and check == case.get("check", 6):
+        if check < n0 <= case["cfg"].get("planted", 0) and check == case.get("check", 6):
             return "genf-selection-depends-on-solver-order"
         return None
+    if why.endswith("the equation is satisfied: reverse-equation-unmapped-child-parameter]") and "not satisfied" in why:
+        return "reverse-equation-unmapped-child-parameter"
     m = re.search(r"repaired as the open finding says is satisfied: ([a-z+-]+)\]", why)
     if m and "not satisfied" in why:
         ids = m.group(1).split("+")
@@ -1549,7 +1748,7 @@ def _gen_rule(rng, findings):
                                         ("c", ["ca", "cb", "cc"], "abc")])
             cls.update({"prefix": p, "patterns": pats, "alphabet": alph})
             cls["stats"] = stats = [t for t in stats if t[1] in alph or t[1] == "#"]
-        if findings and rng.random() < 0.04:
+        if findings and rng.random() < 0.07:
             strategy, mode = rng.choice([("expansion", 3), ("remove_front", 1), ("relabel", 3), ("remove_front", 3)])
             if (strategy, mode) == ("remove_front", 3):
                 form = rng.choice(["fwd", "fwd", "rev"])
@@ -1616,8 +1815,8 @@ def _gen_spec(rng, tier, genf_ok, solver_order_known=False):
             # root = leaf^j x tree: the branches of the root agree below x^j; up to j = check the comparison
             # of get_genf still separates them (j = check is the boundary)
             cfg["planted"] = rng.choice([1, 2, 3, check - 1, check, check])
-            if solver_order_known and ar[-1] == 2 and wt[-1] == 0 and rng.random() < 0.12:
-                cfg["planted"] = check + rng.randint(1, 2)   # the branch is decided by a NON-root class only
+            if solver_order_known and ar[-1] == 2 and rng.random() < 0.15:
+                cfg["planted"] = check + rng.randint(1, 3)   # the branch is decided by a NON-root class only
         elif y < 0.75:
             cfg["node"] = ar[-1]
         return case
@@ -1629,14 +1828,15 @@ def _gen_spec(rng, tier, genf_ok, solver_order_known=False):
 
 
 def gen(rng, tier):
-    findings = {k.get("match") for k in core.load_known() if k.get("property") == ID and k.get("kind") == "open"}
-    both = {"product-equation-parameter-collision", "union-equation-unmapped-child-parameter"} <= findings
+    # the shapes of the three repaired findings (an unmapped genuine child parameter; several parent parameters
+    # on one child parameter in a product; a root whose branches agree on the compared terms) are always
+    # generated: plain cases on a repaired tree, tolerated by mechanism on a tree before the fixes
     n_genf = 0
     cap = 420 if tier == "quick" else 6000
     while True:
         if rng.random() < 0.55:
             for attempt in range(12):
-                c = _gen_rule(rng, both)
+                c = _gen_rule(rng, True)
                 try:
                     ok = _build_rule(c)[0] is not None
                 except AssertionError:
@@ -1647,7 +1847,7 @@ def gen(rng, tier):
                     break
             yield c
         else:
-            c = _gen_spec(rng, tier, n_genf < cap, "genf-selection-depends-on-solver-order" in findings)
+            c = _gen_spec(rng, tier, n_genf < cap, True)
             n_genf += int(bool(c.get("genf")))
             yield c
 
@@ -1659,6 +1859,9 @@ def key(case):
 def nontrivial(case, res):
     out = res.get("out")
     if not isinstance(out, list) or not out:
+        return False
+    out = [d for d in out if d and d[0] != 5]        # (entries [5, ..]: the selection of get_genf)
+    if not out:
         return False
     if case["kind"] == "rule":
         d = out[0]
@@ -1694,13 +1897,16 @@ def classify(case, res):
             tags.append("perm:" + KINDS[k] + ("@spec" if case["kind"] == "spec" else ""))
     if case["kind"] == "spec" and case["cfg"]["universe"] == "stats":
         tags.append("spack:" + case["cfg"].get("spack", "keep"))
+    if case["kind"] == "spec" and case["cfg"]["universe"] == "trees" and case.get("genf") \
+            and case["cfg"].get("planted", 0) > case.get("check", 6):
+        tags.append("genf:planted>check")
     if case["kind"] == "spec" and case["cfg"]["universe"] == "trees" and case.get("genf"):
         tags.append("genf-system:%s" % ("rational" if case["cfg"]["arities"] == [1] else "algebraic"))
         if case.get("check", 6) != 6:
             tags.append("genf:check=%d" % case["check"])
     tags += list(res.get("facts", []))     # written by the oracle (worker process): what was checked and how
     names = set()
-    for d in res.get("out") if isinstance(res.get("out"), list) else []:
+    for d in [d for d in res.get("out") if d and d[0] != 5] if isinstance(res.get("out"), list) else []:
         if len(d[3]) == 3 and d[3][1] and len(d[3][1][0][0]) > 1:
             names.add("multivariate-evaluated")
     return tags + sorted(names)
@@ -1803,6 +2009,10 @@ def extra_checks(ctx):
     need += ["perm:path@spec", "perm:rev_union@spec", "perm:rev_product@spec"]
     # child parameters nobody is mapped to that are 0 on every object (fixed_values paths, reversed zero
     # statistics), the equations a reverse equivalence does emit, refusals, closed forms of both kinds
+    # the shapes the two fixes repair: an unmapped genuine child parameter, several parent parameters on one
+    # child parameter of a product (also three), a root whose branches agree on all compared terms
+    need += ["unmapped-child-parameter:genuine", "merged-parent-parameters:product", "merged-parent-parameters:3+",
+             "merged-parent-parameters:union", "genf:planted>check"]
     need += ["eq:equiv_rev_product:notimplemented", "eq:path_without_constructor:notimplemented", "strategy:unary_product",
              "unmapped-child-parameter:zero", "placeholder", "placeholder@spec", "genf:branches=1", "genf:branches=2",
              "genf-system:rational", "genf-system:algebraic", "genf:criterion:applies", "genf:refused:catalytic-variables"]
@@ -1811,6 +2021,28 @@ def extra_checks(ctx):
     missing = [t for t in need if not tags.get(t)]
     out = [("generator reached every rule form / universe (%s)" % ", ".join("%s=%d" % (t, tags[t]) for t in need),
             not missing, "missing: %s" % missing if missing else "ok")]
+    st = code_state()
+    before = Counter({t: n for t, n in tags.items() if t.startswith("before-fix:")})
+    problems = []
+    if st["eq"] == "mixed":
+        problems.append("only one of DisjointUnion.get_equation / CartesianProduct.get_equation is repaired")
+    for which, on in (("eq", st["eq"] is True), ("genf", bool(st["genf"]))):
+        landed = fix_landed(which)
+        if landed and not on:
+            problems.append("known_findings.json records fix %s but the tree is in the state before it" % landed)
+    if st["eq"] is True and any(t != "before-fix:genf-selection-depends-on-solver-order" for t in before) \
+            or st["genf"] and before.get("before-fix:genf-selection-depends-on-solver-order"):
+        problems.append("a before-fix tolerance was used on a repaired tree: %r" % dict(before))
+    out.append(("code state read from the source: equations %s, get_genf selection %s; model run in that mode; "
+                "defects tolerated as the behaviour before the fixes: %s" % (
+                    {True: "REPAIRED (rule_equation)", False: "before fix f1b2e4b (rule_equation_old)",
+                     "mixed": "HALF REPAIRED"}[st["eq"]],
+                    "REPAIRED (genf_select)" if st["genf"] else "before fix 7be1dfb (genf_select_old)",
+                    dict(before) or "none"), not problems, "; ".join(problems) or "ok"))
+    sel = sum(1 for c, (res, _, _) in zip(ctx.cases, ctx.impl_res)
+              if isinstance(res.get("out"), list) and any(d and d[0] == 5 for d in res["out"]))
+    out.append(("the selection step of get_genf compared with the model (genf_select%s) in %d cases" % (
+        "" if st["genf"] else "_old", sel), sel >= 100 or len(ctx.cases) < 2000, "%d" % sel))
     big = len(ctx.cases) >= 2000
     g = tags.get("genf:returned", 0)
     out.append(("get_genf returned a closed form in %d cases (quick tier: at least 150)" % g, g >= 150 or not big, "%d" % g))
